@@ -39,8 +39,9 @@ Theorem C02_auto_bijection : forall n : nat,
 Proof. exact v_auto_bijection. Qed.
 Print Assumptions C02_auto_bijection.
 
-(* ... and it is observationally the specification index over [0..n-1] for every probe inside the
-   guard auto_key_ok (outside it: Refuted/C02_unvalidated_key.v, C02_float_key.v) *)
+(* ... and it is observationally the specification index over [0..n-1] for every probe key except a
+   non-integer-typed key equal to a held position (1.0 on [0,1,2]: Refuted/C02_float_key.v, the only
+   case auto_key_ok excludes; negative ints, out-of-range bools and None are refused since fix 041ca90) *)
 Theorem C02_auto_refines : forall (n : nat) (probes : list (key val)),
   forallb (auto_key_ok val vto_Z n) probes = true ->
   M_auto val_eqb VInt vto_Z n probes = S_auto val_eqb VInt n probes.
@@ -48,12 +49,11 @@ Proof. exact v_auto_refines. Qed.
 Print Assumptions C02_auto_refines.
 
 (* grow-only index, started from IndexGO(labels) or from an auto-integer IndexGO: after ANY history of
-   append / extend / reader calls inside the guard go_dom, the state is a bijection (go_wf: labels
+   append / extend / reader calls (no guard since fix feb832d) the state is a bijection (go_wf: labels
    distinct, count = length, map = positions or labels = 0..n-1) and holds exactly the labels of the
    specification list, every single outcome (accepted / rejected) agreeing *)
 Theorem C02_go_history : forall (g : go val) (ops : list (op val)),
   (exists l, M_go_init val_eqb l = Ok g) \/ (exists n, g = M_go_auto VInt n) ->
-  go_dom val_eqb vto_Z g ops = true ->
   vgo_wf (fst (M_go_run val_eqb vto_Z g ops)) /\
   (g_mut (fst (M_go_run val_eqb vto_Z g ops)), map is_ok (snd (M_go_run val_eqb vto_Z g ops)))
     = S_go_run val_eqb (g_mut g) ops.
@@ -66,10 +66,10 @@ Theorem C02_go_labels_laws : forall (ops : list (op val)) (l : list val), NoDup 
 Proof. exact v_go_labels_laws. Qed.
 Print Assumptions C02_go_labels_laws.
 
-(* a grown index in a bijection state is observationally the specification index over its labels
-   (map-less state: only once a reader has refreshed the cache -- finding C02-autogo-stale-positions) *)
+(* a grown index in a bijection state is observationally the specification index over its labels, stale
+   caches or not (fix 41fcfc5); on a still map-less state for the probes of auto_key_ok *)
 Theorem C02_go_observe : forall (g : go val) (probes : list (key val)),
-  vgo_wf g -> go_cold_ok val g = true -> forallb (go_probe_ok val vto_Z g) probes = true ->
+  vgo_wf g -> forallb (go_probe_ok val vto_Z g) probes = true ->
   M_go_observe val_eqb vto_Z g probes = S_observe val_eqb (g_mut g) probes.
 Proof. exact v_go_observe. Qed.
 Print Assumptions C02_go_observe.
